@@ -72,6 +72,7 @@ def run(tier):
         if step_src not in trig_cache:
             trig_cache[step_src] = sc.trigger_andor_multi(sc.parse_nodes(step_src))
         sig = {"kind": "behaviour" if v["verdict"] == "differ" else "failure", "culprit": cul, "trigger_andor_multi": trig_cache[step_src],
+               "trigger_underscore_read": sc.trigger_underscore_read(sc.parse_nodes(c["src"])),
                "generator": c["generator"], "cfg": c["cfg"], "what": (v.get("detail") or {}).get("what", v.get("status", ""))[:120],
                "body": c["body"][:200]}
         payload = {"id": c["id"], "src": c["src"], "rules": c["rules"], "generator": c["generator"], "out": v.get("out", ""), "detail": v.get("detail")}
